@@ -33,7 +33,7 @@ def _v3(repo, mod):
 @variant("C30", "closed-sink-reused", ISO, "C30.sink", "shared sink not re-opened (the repaired defect)")
 def _v4(repo, mod):
     fn = repo.func(ISO, f"{OSC}.__enter__")
-    return delete_stmt(mod, find_stmt(fn, lambda s: isinstance(s, ast.If) and "closed" in norm(s.test)))
+    return delete_stmt(mod, find_stmt(fn, lambda s: isinstance(s, ast.If) and norm(s.test) == "unusable"))
 
 
 @variant("C30", "reseed-after-execution", EXE, "C30.reseed", "reseeding moved to the after-hook")
@@ -69,3 +69,52 @@ def _v8(repo, mod):
 def _v9(repo, mod):
     fn = repo.func(ISO, "_make_deterministic")
     return insert_before(mod, fn.body[-1], "_unused = seed")
+
+
+@variant("C30", "detached-sink-not-handled", ISO, "C30.sink", "`.closed` of a detached sink raises in __enter__ (the repaired defect)")
+def _v30(repo, mod):
+    fn = repo.func(ISO, f"{OSC}.__enter__")
+    t = find_stmt(fn, lambda s: isinstance(s, ast.Try) and "closed" in norm(s))
+    return replace_node(mod, t, "unusable = self._null_file.closed")
+
+
+@variant("C30", "reopened-sink-not-shared", ISO, "C30.sink", "a fresh sink is opened but the streams still go to the closed one")
+def _v31(repo, mod):
+    fn = repo.func(ISO, f"{OSC}.__enter__")
+    s = find_stmt(fn, lambda s: isinstance(s, ast.Assign) and norm(s.targets[0]) == f"{OSC}._null_file")
+    return replace_node(mod, s.targets[0], "_fresh_sink")
+
+
+@variant("C30", "stdin-not-restored", ISO, "C30.roundtrip", "sys.stdin left as the test case set it (the repaired defect)")
+def _v32(repo, mod):
+    fn = repo.func(ISO, f"{OSC}.restore")
+    s = find_stmt(fn, lambda s: isinstance(s, ast.If) and "_saved_stdin" in norm(s.test))
+    return delete_stmt(mod, s)
+
+
+@variant("C30", "root-level-saved-after-the-redirect-but-never-restored", ISO, "C30.roundtrip", "root level saved, never put back (the repaired defect)")
+def _v33(repo, mod):
+    fn = repo.func(ISO, f"{OSC}.restore")
+    s = find_stmt(fn, lambda s: isinstance(s, ast.If) and "_saved_root_level" in norm(s.test))
+    return delete_stmt(mod, s)
+
+
+@variant("C30", "threshold-restored-only-when-nonzero", ISO, "C30.roundtrip", "truthiness instead of `is not None`: the usual threshold 0 is never restored")
+def _v34(repo, mod):
+    fn = repo.func(ISO, f"{OSC}.restore")
+    s = find_stmt(fn, lambda s: isinstance(s, ast.If) and "_saved_logging_disable" in norm(s.test))
+    return replace_node(mod, s.test, "self._saved_logging_disable")
+
+
+@variant("C30", "fds-restored-crosswise", ISO, "C30.roundtrip", "dup2 with its arguments swapped")
+def _v35(repo, mod):
+    fn = repo.func(ISO, f"{OSC}.restore")
+    c = find_node(fn, lambda n: isinstance(n, ast.Call) and norm(n.func) == "os.dup2")
+    return replace_node(mod, c, "os.dup2(fd, saved_fd)")
+
+
+@variant("C30", "twin-state-saved-in-one-tuple", ISO, None, "saving stdin and level in one tuple stays silent")
+def _v36(repo, mod):
+    src = mod.source
+    src = src.replace("        self._saved_root_level = logging.root.level\n        self._saved_stdin = sys.stdin\n", "        self._saved_root_level, self._saved_stdin = logging.root.level, sys.stdin\n")
+    return src
